@@ -6,6 +6,7 @@ import GtirbVerif.Model.IR.Batch
 import GtirbVerif.Spec.FlatCfg
 import GtirbVerif.Spec.FuncCheck
 import GtirbVerif.Spec.WellFormed
+import GtirbVerif.Spec.CfiCheck
 
 /-! JSON <-> abstract IR (the canonical dump produced by harness/irdump.py). -/
 namespace Driver.IRJson
@@ -257,7 +258,12 @@ def leditOf (j : Json) : Except String LEdit := do
     let a ← p.getArr?
     pure ((← (← at' a 0).getNat?), (← (← at' a 1).getStr?), (← (← at' a 2).getInt?),
       (← (← (← at' a 3).getArr?).toList.mapM (·.getNat?))))
-  .ok { block := ← getNat j "block", off := ← getNat j "off", del := ← getNat j "del",
+  let cfi : List (Nat × String) ← match j.getObjVal? "cfi" with
+    | .ok (Json.arr a) => a.toList.mapM (fun p => do
+        let q ← p.getArr?
+        pure ((← (← at' q 0).getNat?), (← (← at' q 1).getStr?)))
+    | _ => pure []
+  .ok { block := ← getNat j "block", off := ← getNat j "off", del := ← getNat j "del", cfi := cfi,
         ins := ← getNatList j "ins", labels := labels, aligns := ← natNatList j "aligns",
         proxy := ← getBool j "proxy", order := ← getNat j "order", tailCode := ← getBool j "tail_code",
         exprs := exprs, exprSizes := ← natNatList j "expr_sizes" }
@@ -311,6 +317,26 @@ def handleListing (op : String) (j : Json) : Option (Except String Json) :=
     let needAddr ← getBool j "need_addr"
     let closureOnly ← getBool j "closure_only"
     .ok (Json.mkObj [("C05", issuesJ (checkWellFormed before after (fun b => emptied.contains b) needAddr closureOnly))])
+  | "cfi_check" => some do
+    let before ← irOf (← j.getObjVal? "before")
+    let after ← irOf (← j.getObjVal? "after")
+    let edits ← (← arr j "edits").mapM leditOf
+    let nop ← getNatList j "nop"
+    let rowsOf (key : String) : Except String (List CfiRow) := do
+      (← arr j key).mapM (fun p => do
+        let a ← p.getArr?
+        pure ({ sect := ← (← at' a 0).getStr?, pos := ← (← at' a 1).getNat?, proc := ← (← at' a 2).getInt?,
+                state := ← (← at' a 3).getStr?, block := ← (← at' a 4).getNat?, disp := ← (← at' a 5).getNat?,
+                hasEndproc := ← (← at' a 6).getBool? } : CfiRow))
+    let insns ← (← arr j "insns").mapM (fun p => do
+      let a ← p.getArr?
+      let b ← (a[0]!).getNat?
+      let l ← (← (a[1]!).getArr?).toList.mapM (fun q => do
+        let t ← q.getArr?
+        pure ({ off := ← (t[0]!).getNat?, size := ← (t[1]!).getNat?,
+                kind := GtirbVerif.FlatCfg.Kind.fromCode (← (t[2]!).getNat?) } : GtirbVerif.FlatCfg.Insn))
+      pure (b, l))
+    .ok (Json.mkObj [("C08", issuesJ (checkCfi before after edits nop (← rowsOf "rows_before") (← rowsOf "rows_after") insns))])
   | _ => none
 
 end Driver.IRJson
